@@ -243,8 +243,14 @@ func (r *Report) Finish() int {
 		"violations":  unknown,
 	}
 	b, _ := json.MarshalIndent(ev, "", " ")
-	os.MkdirAll(filepath.Join(Root, "evidence"), 0o755)
-	if err := os.WriteFile(filepath.Join(Root, "evidence", r.Property+".json"), b, 0o644); err != nil {
+	// (bin/seed-run points VERIF_EVIDENCE_DIR at a scratch directory: runs against a deliberately broken tree must
+	// not overwrite the evidence of the unchanged tree)
+	evdir := filepath.Join(Root, "evidence")
+	if d := os.Getenv("VERIF_EVIDENCE_DIR"); d != "" {
+		evdir = d
+	}
+	os.MkdirAll(evdir, 0o755)
+	if err := os.WriteFile(filepath.Join(evdir, r.Property+".json"), b, 0o644); err != nil {
 		fmt.Printf("ENGINE-ERROR property=%s cannot write evidence: %v\n", r.Property, err)
 		return 2
 	}
